@@ -154,6 +154,11 @@ NAMES = dict(J="jacobian", G="grad", DJ="diff_jacobian", GJ="grad_jacobian", F="
              MU="transitionMean", SG="transitionVar")
 
 
+# documented shapes of the matrix-valued evaluators (nS states, nP parameters, nE events)
+SHAPES = dict(J=lambda nS, nP, nE: (nS, nS), G=lambda nS, nP, nE: (nS, nP), DJ=lambda nS, nP, nE: (nS * nS, nS),
+              GJ=lambda nS, nP, nE: (nS * nP, nS), F=lambda nS, nP, nE: (nE, nE), MU=lambda nS, nP, nE: None, SG=lambda nS, nP, nE: None)
+
+
 def compare(d, order, pv, point, m, numeric=True):
     ind = independent(d, order, point)
     exact = pv["exact"]
@@ -171,6 +176,10 @@ def compare(d, order, pv, point, m, numeric=True):
             if not ind[k]:
                 continue
             r1 = f(x, t)
+            want_shape = SHAPES[k](len(d["states"]), len(d["params"]), len(d["events"]))
+            if want_shape is not None and tuple(np.shape(r1)) != want_shape:
+                return ("numeric-" + NAMES[k] + "-shape", "%s(x,t) has shape %s, documented shape %s (%d states, %d parameters, %d events)"
+                        % (NAMES[k], tuple(np.shape(r1)), want_shape, len(d["states"]), len(d["params"]), len(d["events"])))
             got = np.array(np.asarray(r1, float).ravel())
             want = np.array([float(v) for v in ind[k]])
             if got.shape != want.shape or not np.all(np.abs(got - want) <= 1e-8 * (1 + np.abs(want))):
@@ -268,6 +277,8 @@ def run(ck):
         if time.time() > t_end:
             break
         d = gen(rng)
+        if d["decl"] == "range" and k % 2 == 0 and len(d["states"]) >= 2:      # (a one-element range cannot be indexed: TypeError, observed)
+            d["index_style"] = True          # equations address the states of 'y1:n' as y[0], y[1], ...
         route = c01.ROUTES[int(rng.integers(0, len(c01.ROUTES)))]
         inp = dict(definition=d, route=route, seed=k)
         try:
